@@ -5,7 +5,9 @@
 From Coq Require Import List Arith ZArith.
 From VBase Require Import FieldOps.
 From VModel Require Import Composition.
-From VProofs Require Import ZpLaws CompositionBase CompositionIndex CompositionVerifier CompositionTable CompositionExamples.
+From VModel Require FFT Stark.
+From VProofs Require FFTSpec FFTEval FFTOffset FFTSegments StarkPoly.
+From VProofs Require Import ZpLaws CompositionBase CompositionIndex CompositionVerifier CompositionTable CompositionFFT CompositionValid CompositionExamples.
 Import ListNotations.
 Local Open Scope nat_scope.
 
@@ -200,6 +202,235 @@ Theorem C17_composition_is_definition_partial :
 Proof. intros F O L. exact (composition_is_definition_partial O L). Qed.
 Print Assumptions C17_composition_is_definition_partial.
 
+(* ---- table_row_spec for the SINGLE-segment prover path (evaluate_fragment_main: main frame only, the first num_main
+        coefficients, BoundaryConstraints::evaluate_main; no auxiliary groups): every value returned by evaluate is
+        comp_def (without auxiliary terms) at x_i = w_ce^i * offset *)
+Theorem C17_table_row_spec_single_segment :
+  forall (F : Type) (O0 : FOps F),
+         FLaws O0 ->
+         forall (n ceb ldeb r : nat) (offset : F) (rou : nat -> F) (wlde ginv : F),
+         n <> 0 ->
+         ceb <> 0 ->
+         r <> 0 ->
+         ldeb = ceb * r ->
+         cpow O0 wlde (lde_size n ldeb) = fone O0 ->
+         cpow O0 wlde r = wce n ceb rou ->
+         cpow O0 wlde ldeb = gtrace n rou ->
+         fmul O0 ginv (gtrace n rou) = fone O0 ->
+         forall (num_main : nat) (tmain : list F -> list F -> list F -> list F)
+           (taux : list F -> list F -> list F -> list F -> list F -> list F -> list F) (ppolys : list (list F))
+           (exemptions : nat) (tcoef : list F) (main_groups aux_groups : list BGroup) (rands : list F)
+           (tpolys apolys lde_main lde_aux : list (list F)),
+         (forall cur nxt pv : list F, length (tmain cur nxt pv) = num_main) ->
+         exemptions <= n ->
+         (forall p : list F, In p ppolys -> length p <> 0) ->
+         (forall p : list F, In p ppolys -> length p * (n / length p) = n) ->
+         (forall p : list F,
+          In p ppolys -> exists q : nat, fold_left Nat.max (map (length (A:=F)) ppolys) 0 = length p * q) ->
+         (forall p : list F, In p ppolys -> rou (length p * ceb) = cpow O0 (wce n ceb rou) (n / length p)) ->
+         (forall g : BGroup,
+          In g main_groups ->
+          div_ok n ceb (bg_div g) /\ (forall c : BC, In c (bg_cs g) -> bc_ok O0 n ceb ginv tpolys c)) ->
+         (forall g : BGroup,
+          In g aux_groups -> div_ok n ceb (bg_div g) /\ (forall c : BC, In c (bg_cs g) -> bc_ok O0 n ceb ginv apolys c)) ->
+         lde_rows_of O0 n ldeb offset wlde lde_main tpolys ->
+         aux_groups = [] ->
+         evaluate O0 n ceb ldeb offset rou num_main tmain taux ppolys exemptions tcoef main_groups aux_groups rands
+           false lde_main lde_aux (fun (_ : nat) (v : F) => v) =
+         Some
+           (map
+              (fun i : nat =>
+               comp_def O0 n rou tmain taux ppolys exemptions tcoef main_groups aux_groups rands false tpolys apolys
+                 (ce_x O0 n ceb offset rou i)) (seq 0 (ce_size n ceb))).
+Proof. exact @evaluate_spec_main. Qed.
+Print Assumptions C17_table_row_spec_single_segment.
+
+(* ---- capstone with the interpolation hypotheses DISCHARGED from C09 and the polynomial form of comp_def DISCHARGED from
+        validity through C01's air_quotient_exists.  `interp_fft` is C09's faithful model of
+        fft::interpolate_poly_with_offset applied with the inverse twiddles fft::get_inv_twiddles returns.
+        Conclusion: evaluate and CompositionPoly::new succeed; there is ONE coefficient list Q (<= m coefficients) such
+        that the recombination sum_i z^(i n) H_i(z) of the committed columns is Q(z) at EVERY z and is comp_def(z) at every
+        z outside the trace domain (where the divisors are defined).
+        REMAINING hypotheses (all explicit below), besides well-formedness of sizes and of what the air constructors produce:
+        (1) root-of-unity relations of get_root_of_unity (w_lde of order |lde|, w_lde^r = w_ce primitive 2^(K+1)-th root,
+            w_lde^ldeb = g primitive n-th root, periodic-cycle roots) and odd characteristic (2^(K+1) invertible);
+        (2) the trace LDE rows are the trace polynomials on the LDE coset (C09_segments_spec describes the matrix the prover
+            builds; the tie between that RowMatrix and the rows read by read_main_trace_frame_into is not modelled);
+        (3) the transition numerator sum_i alpha_i C_i(T(x),T(gx),P(x)) and each group's numerator are given as coefficient
+            lists N, Bm/Ba (i.e. the constraint evaluators are polynomial maps), each group's divisor x^a - b has the zero
+            set Rm/Ra inside the trace domain, the numerators vanish where the constraints are enforced (VALIDITY of the
+            trace) and their quotient lengths are bounded by m <= min(|ce|, num_cols * n) (C01_comp_cols_fit gives this
+            bound for num_constraint_composition_columns);
+        (4) the ce coset is disjoint from the trace domain.
+        Not covered: Lagrange-kernel constraints (model hook, correspondence only), extension fields (E = B in the model). *)
+Theorem C17_composition_is_definition :
+  forall (F : Type) (O0 : FOps F),
+         FLaws O0 ->
+         forall (n ceb ldeb r : nat) (offset : F) (rou : nat -> F) (wlde ginv : F),
+         n <> 0 ->
+         ceb <> 0 ->
+         r <> 0 ->
+         ldeb = ceb * r ->
+         cpow O0 wlde (lde_size n ldeb) = fone O0 ->
+         cpow O0 wlde r = wce n ceb rou ->
+         cpow O0 wlde ldeb = gtrace n rou ->
+         fmul O0 ginv (gtrace n rou) = fone O0 ->
+         StarkPoly.primitive_root O0 (gtrace n rou) n ->
+         forall (num_main : nat) (tmain : list F -> list F -> list F -> list F)
+           (taux : list F -> list F -> list F -> list F -> list F -> list F -> list F) (ppolys : list (list F))
+           (exemptions : nat) (tcoef : list F) (main_groups aux_groups : list BGroup) (rands : list F)
+           (tpolys apolys lde_main lde_aux : list (list F)),
+         (forall cur nxt pv : list F, length (tmain cur nxt pv) = num_main) ->
+         exemptions <= n ->
+         (forall p : list F, In p ppolys -> length p <> 0) ->
+         (forall p : list F, In p ppolys -> length p * (n / length p) = n) ->
+         (forall p : list F,
+          In p ppolys -> exists q : nat, fold_left Nat.max (map (length (A:=F)) ppolys) 0 = length p * q) ->
+         (forall p : list F, In p ppolys -> rou (length p * ceb) = cpow O0 (wce n ceb rou) (n / length p)) ->
+         (forall gr : BGroup,
+          In gr main_groups ->
+          div_ok n ceb (bg_div gr) /\ (forall c : BC, In c (bg_cs gr) -> bc_ok O0 n ceb ginv tpolys c)) ->
+         lde_rows_of O0 n ldeb offset wlde lde_main tpolys ->
+         forall (two_adicity K : nat) (rouk : nat -> F) (itw : list F),
+         ce_size n ceb = 2 ^ S K ->
+         S K <= two_adicity ->
+         rouk (S K) = wce n ceb rou ->
+         FFTSpec.root_cond O0 (S K) (wce n ceb rou) ->
+         FFT.get_inv_twiddles O0 two_adicity rouk (2 ^ S K) = Some itw ->
+         offset <> fzero O0 ->
+         fmul O0 (FFTSpec.two_pow_f O0 (S K)) (FFTOffset.n_inv O0 (S K)) = fone O0 ->
+         (forall i : nat, i < ce_size n ceb -> ~ In (ce_x O0 n ceb offset rou i) (Stark.domain O0 (gtrace n rou) n)) ->
+         forall num_cols m : nat,
+         m <= ce_size n ceb ->
+         m <= num_cols * n ->
+         n < ce_size n ceb ->
+         forall (N : list F) (Bm Rm Ba Ra : BGroup -> list F),
+         (forall gr : BGroup, In gr main_groups -> forall z : F, peval O0 (Bm gr) z = group_numer O0 tpolys gr z) ->
+         (forall gr : BGroup,
+          In gr main_groups ->
+          forall z : F, Stark.pprod O0 (Rm gr) z = fsub O0 (cpow O0 z (dv_a (bg_div gr))) (dv_b (bg_div gr))) ->
+         (forall i : nat, i < n - exemptions -> peval O0 N (cpow O0 (gtrace n rou) i) = fzero O0) ->
+         length N - (n - exemptions) <= m ->
+         aux_groups = [] ->
+         (forall z : F,
+          peval O0 N z =
+          rsum O0
+            (map (fun ca : F * F => fmul O0 (snd ca) (fst ca))
+               (combine (def_constraints O0 n rou tmain taux ppolys rands false tpolys apolys z) tcoef))) ->
+         Forall
+           (fun br : list F * list F =>
+            NoDup (snd br) /\
+            incl (snd br) (Stark.domain O0 (gtrace n rou) n) /\
+            (forall r0 : F, In r0 (snd br) -> peval O0 (fst br) r0 = fzero O0) /\
+            length (fst br) - length (snd br) <= m) (bs_of main_groups aux_groups false Bm Rm Ba Ra) ->
+         exists (Q evals : list F) (cols : list (list F)),
+           length Q <= m /\
+           evaluate O0 n ceb ldeb offset rou num_main tmain taux ppolys exemptions tcoef main_groups aux_groups rands
+             false lde_main lde_aux (fun (_ : nat) (v : F) => v) = Some evals /\
+           composition_poly_new n (interp_fft O0 two_adicity itw offset) evals num_cols = Some cols /\
+           (forall z : F, recombine O0 n (cp_evaluate_at O0 cols z) z = peval O0 Q z) /\
+           (forall z : F,
+            ~ In z (Stark.domain O0 (gtrace n rou) n) ->
+            recombine O0 n (cp_evaluate_at O0 cols z) z =
+            comp_def O0 n rou tmain taux ppolys exemptions tcoef main_groups aux_groups rands false tpolys apolys z).
+Proof. exact @composition_is_definition_valid_main. Qed.
+Print Assumptions C17_composition_is_definition.
+
+Theorem C17_composition_is_definition_aux :
+  forall (F : Type) (O0 : FOps F),
+         FLaws O0 ->
+         forall (n ceb ldeb r : nat) (offset : F) (rou : nat -> F) (wlde ginv : F),
+         n <> 0 ->
+         ceb <> 0 ->
+         r <> 0 ->
+         ldeb = ceb * r ->
+         cpow O0 wlde (lde_size n ldeb) = fone O0 ->
+         cpow O0 wlde r = wce n ceb rou ->
+         cpow O0 wlde ldeb = gtrace n rou ->
+         fmul O0 ginv (gtrace n rou) = fone O0 ->
+         StarkPoly.primitive_root O0 (gtrace n rou) n ->
+         forall (num_main : nat) (tmain : list F -> list F -> list F -> list F)
+           (taux : list F -> list F -> list F -> list F -> list F -> list F -> list F) (ppolys : list (list F))
+           (exemptions : nat) (tcoef : list F) (main_groups aux_groups : list BGroup) (rands : list F)
+           (tpolys apolys lde_main lde_aux : list (list F)),
+         (forall cur nxt pv : list F, length (tmain cur nxt pv) = num_main) ->
+         exemptions <= n ->
+         (forall p : list F, In p ppolys -> length p <> 0) ->
+         (forall p : list F, In p ppolys -> length p * (n / length p) = n) ->
+         (forall p : list F,
+          In p ppolys -> exists q : nat, fold_left Nat.max (map (length (A:=F)) ppolys) 0 = length p * q) ->
+         (forall p : list F, In p ppolys -> rou (length p * ceb) = cpow O0 (wce n ceb rou) (n / length p)) ->
+         (forall gr : BGroup,
+          In gr main_groups ->
+          div_ok n ceb (bg_div gr) /\ (forall c : BC, In c (bg_cs gr) -> bc_ok O0 n ceb ginv tpolys c)) ->
+         lde_rows_of O0 n ldeb offset wlde lde_main tpolys ->
+         forall (two_adicity K : nat) (rouk : nat -> F) (itw : list F),
+         ce_size n ceb = 2 ^ S K ->
+         S K <= two_adicity ->
+         rouk (S K) = wce n ceb rou ->
+         FFTSpec.root_cond O0 (S K) (wce n ceb rou) ->
+         FFT.get_inv_twiddles O0 two_adicity rouk (2 ^ S K) = Some itw ->
+         offset <> fzero O0 ->
+         fmul O0 (FFTSpec.two_pow_f O0 (S K)) (FFTOffset.n_inv O0 (S K)) = fone O0 ->
+         (forall i : nat, i < ce_size n ceb -> ~ In (ce_x O0 n ceb offset rou i) (Stark.domain O0 (gtrace n rou) n)) ->
+         forall num_cols m : nat,
+         m <= ce_size n ceb ->
+         m <= num_cols * n ->
+         n < ce_size n ceb ->
+         forall (N : list F) (Bm Rm Ba Ra : BGroup -> list F),
+         (forall gr : BGroup, In gr main_groups -> forall z : F, peval O0 (Bm gr) z = group_numer O0 tpolys gr z) ->
+         (forall gr : BGroup,
+          In gr main_groups ->
+          forall z : F, Stark.pprod O0 (Rm gr) z = fsub O0 (cpow O0 z (dv_a (bg_div gr))) (dv_b (bg_div gr))) ->
+         (forall i : nat, i < n - exemptions -> peval O0 N (cpow O0 (gtrace n rou) i) = fzero O0) ->
+         length N - (n - exemptions) <= m ->
+         (forall gr : BGroup,
+          In gr aux_groups ->
+          div_ok n ceb (bg_div gr) /\ (forall c : BC, In c (bg_cs gr) -> bc_ok O0 n ceb ginv apolys c)) ->
+         lde_rows_of O0 n ldeb offset wlde lde_aux apolys ->
+         (forall gr : BGroup, In gr aux_groups -> forall z : F, peval O0 (Ba gr) z = group_numer O0 apolys gr z) ->
+         (forall gr : BGroup,
+          In gr aux_groups ->
+          forall z : F, Stark.pprod O0 (Ra gr) z = fsub O0 (cpow O0 z (dv_a (bg_div gr))) (dv_b (bg_div gr))) ->
+         (forall z : F,
+          peval O0 N z =
+          rsum O0
+            (map (fun ca : F * F => fmul O0 (snd ca) (fst ca))
+               (combine (def_constraints O0 n rou tmain taux ppolys rands true tpolys apolys z) tcoef))) ->
+         Forall
+           (fun br : list F * list F =>
+            NoDup (snd br) /\
+            incl (snd br) (Stark.domain O0 (gtrace n rou) n) /\
+            (forall r0 : F, In r0 (snd br) -> peval O0 (fst br) r0 = fzero O0) /\
+            length (fst br) - length (snd br) <= m) (bs_of main_groups aux_groups true Bm Rm Ba Ra) ->
+         exists (Q evals : list F) (cols : list (list F)),
+           length Q <= m /\
+           evaluate O0 n ceb ldeb offset rou num_main tmain taux ppolys exemptions tcoef main_groups aux_groups rands
+             true lde_main lde_aux (fun (_ : nat) (v : F) => v) = Some evals /\
+           composition_poly_new n (interp_fft O0 two_adicity itw offset) evals num_cols = Some cols /\
+           (forall z : F, recombine O0 n (cp_evaluate_at O0 cols z) z = peval O0 Q z) /\
+           (forall z : F,
+            ~ In z (Stark.domain O0 (gtrace n rou) n) ->
+            recombine O0 n (cp_evaluate_at O0 cols z) z =
+            comp_def O0 n rou tmain taux ppolys exemptions tcoef main_groups aux_groups rands true tpolys apolys z).
+Proof. exact @composition_is_definition_valid_aux. Qed.
+Print Assumptions C17_composition_is_definition_aux.
+
+(* ---- hypothesis (2) of the capstone from C09: the matrix RowMatrix::evaluate_polys_over builds (C09_segments_spec), read
+        row by row (`rows_of_matrix` = RowMatrix::row(r)), satisfies lde_rows_of.  (Stated separately; the capstone keeps
+        lde_rows_of as a hypothesis on the rows given to the evaluator.) *)
+Theorem C17_lde_rows_from_segments :
+  forall {F} (O : FOps F) (L : FLaws O)
+    (root_of_unity : nat -> F) (Nseg : nat) (polys : list (list F)) (tw : list F) (K b : nat) (wlde offset : F) (n ldeb : nat),
+  n = 2 ^ S K -> ldeb = 2 ^ b ->
+  0 < Nseg -> polys <> [] -> (forall p, In p polys -> length p = 2 ^ S K) -> length tw = 2 ^ K -> 0 < b ->
+  root_of_unity (S K + b) = wlde -> FFTSpec.root_cond O (S K + b) wlde ->
+  FFTEval.tw_ok O tw (S K) (FFT.fpow O wlde (2 ^ b)) ->
+  exists M, FFT.evaluate_polys_over O root_of_unity Nseg polys tw offset (2 ^ b) = Some M /\
+            lde_rows_of O n ldeb offset wlde (rows_of_matrix O M) polys.
+Proof. intros F O L. exact (lde_rows_from_segments O L). Qed.
+Print Assumptions C17_lde_rows_from_segments.
+
 (* ---- non-vacuity: each theorem above instantiated in the 64-bit field with ALL hypotheses discharged
         (Proofs/CompositionExamples.v).  Instance A: trace length 2, ce blowup 2, a periodic column, an auxiliary column,
         a single-value group at step 0, a two-value sequence group with first step 1, an auxiliary group sharing the first
@@ -250,3 +481,23 @@ Proof.
   eexists. split; [reflexivity|]. intros z.
   apply (C17_column_split_recombine F64_ops F64_laws 2 ltac:(discriminate) 3); [simpl; auto with arith | reflexivity].
 Qed.
+
+Example C17_table_row_spec_single_segment_nonvacuous :
+  evaluate F64_ops 2 2 2 (e64 7) rouA 1 tmainA tauxA ppolysA 1 [e64 11] [gA; gA2] [] [] false (ldeA tpolysA) [] (fun _ v => v)
+  = Some (map (fun i => comp_def F64_ops 2 rouA tmainA tauxA ppolysA 1 [e64 11] [gA; gA2] [] [] false tpolysA []
+                          (ce_x F64_ops 2 2 (e64 7) rouA i)) (seq 0 (ce_size 2 2))).
+Proof. exact table_row_spec_single_segment_instance. Qed.
+
+(* all hypotheses of C17_composition_is_definition hold together (FFT model's inverse twiddles, root conditions, odd
+   characteristic, primitive root, coset disjoint from the trace domain) — on the empty AIR over a trace of length 1 *)
+Example C17_composition_is_definition_nonvacuous :
+  exists itw, FFT.get_inv_twiddles F64_ops 32 (fun _ => m1) (2 ^ 1) = Some itw /\
+  exists Q evals cols,
+    length Q <= 0
+    /\ evaluate F64_ops 1 2 2 (e64 7) rouB 0 (fun _ _ _ => []) (fun _ _ _ _ _ _ => []) [] 1 [] [] [] [] false
+                (map (fun _ => []) (seq 0 2)) [] (fun _ v => v) = Some evals
+    /\ composition_poly_new 1 (interp_fft F64_ops 32 itw (e64 7)) evals 1 = Some cols
+    /\ (forall z, recombine F64_ops 1 (cp_evaluate_at F64_ops cols z) z = peval F64_ops Q z)
+    /\ (forall z, ~ In z (Stark.domain F64_ops (gtrace 1 rouB) 1) -> recombine F64_ops 1 (cp_evaluate_at F64_ops cols z) z
+          = comp_def F64_ops 1 rouB (fun _ _ _ => []) (fun _ _ _ _ _ _ => []) [] 1 [] [] [] [] false [] [] z).
+Proof. exact composition_is_definition_instance. Qed.
